@@ -343,7 +343,7 @@ func init() {
 		reqs := fsRequests(quick)
 		r.Rule = fmt.Sprintf("states: every tree over names {a,b.html}, depth<=2, contents %v (%d) + %d probe states (deeper nesting, zero-length files, names needing escaping, prefix-named siblings, typed-before-untyped members, names beginning/ending with two dots); requests: every method x path spelling x Depth x Overwrite x Destination form x body variant (%d per state); every (state, request) pair executed on the real handler over a real directory; non-trivial = the request addresses a mapped resource or changes the tree; distinct by (canonical tree, request)", contents, len(states)-len(fsProbeStates()), len(fsProbeStates()), len(reqs))
 		r.Explanation = "explicit-state search: each canonical tree is materialised on tmpfs, each request is served by webdav.Handler{LocalFileSystem}, and (status, headers, body, multistatus, tree afterwards) is compared with a reference RFC 4918 resource-tree model; by induction over history length agreement on every (state, request) pair of the universe covers every history that stays inside it"
-		r.Assumptions = []string{"mtimes are fixed by the materialiser; entity tags are treated as opaque strings read from the server in the same state", "DELETE / and COPY/MOVE with source / are outside the model"}
+		r.Assumptions = []string{"mtimes are fixed by the materialiser; entity tags are treated as opaque strings read from the server in the same state", "COPY/MOVE whose source is the root must be refused (every destination lies inside the source); DELETE of the root is refused and leaves the tree alone"}
 		r.Extra["requests_per_state"] = len(reqs)
 		// the served directory named "." (sequential: the working directory is process-wide)
 		cwdStates := append(append([]harness.Tree(nil), fsProbeStates()...), fsSpellingStates(states, true)...)
